@@ -22,6 +22,9 @@ sys.path.insert(0, VERIF)
 from vlib import build, runner  # noqa: E402
 
 ALL_IDS = ["C%02d" % i for i in range(1, 21)]
+# evidence of runs against a scratch copy of the repository (self-test) must not overwrite the real evidence
+EVID = os.environ.get("VERIF_EVIDENCE") or (os.path.join(VERIF, "evidence") if os.path.realpath(build.REPO) == "/repo"
+                                            else os.path.join(build.BUILD, "scratch_evidence"))
 
 
 def load_known():
@@ -54,7 +57,7 @@ class Run:
         self.jobs = jobs
         self.keep = keep
         self.workdir = os.path.join(build.BUILD, "run", "%s.%d" % (self.pid, os.getpid()))
-        self.witdir = os.path.join(VERIF, "evidence", "witness", self.pid)
+        self.witdir = os.path.join(EVID, "witness", self.pid)
         self.records = []   # list of (stage, case, rec)
         self.violations = []  # list of dict(key, detail, stage, case, log)
         self.inconclusive = 0
@@ -66,7 +69,7 @@ class Run:
                 continue
             r = runner.ShardRunner(st["exe"], st["cases"], os.path.join(self.workdir, st["name"]),
                                    env=st.get("env"), jobs=min(self.jobs, st.get("jobs", self.jobs)),
-                                   timeout=st.get("timeout", 120), tag=st["name"])
+                                   timeout=st.get("timeout", 120), tag=st["name"], per_process=st.get("per_process", False))
             recs = r.run()
             for c in st["cases"]:
                 rec = recs.get(c["id"])
@@ -153,8 +156,8 @@ class Run:
         if self.harness_failures:
             print("HARNESS-FAILURE %s: %d case(s): %s" % (self.pid, len(self.harness_failures), self.harness_failures[:3]))
         ok_evidence = n_eval >= 1 and ev["coverage"]["distinct_nontrivial"] >= 2
-        os.makedirs(os.path.join(VERIF, "evidence"), exist_ok=True)
-        with open(os.path.join(VERIF, "evidence", "%s.json" % self.pid), "w") as f:
+        os.makedirs(EVID, exist_ok=True)
+        with open(os.path.join(EVID, "%s.json" % self.pid), "w") as f:
             json.dump(ev, f, indent=1, sort_keys=True)
         if not self.keep:
             shutil.rmtree(self.workdir, ignore_errors=True)
@@ -202,6 +205,7 @@ class Run:
         }
 
 
+TSAN_FRAME_RE = re.compile(r"^\s*#(\d+) (.+?) (/[^\s:]+):(\d+)(?::\d+)? \(")
 TSAN_BLOCK_RE = re.compile(r"WARNING: ThreadSanitizer: (.+?) \(pid=\d+\)(.*?)(?=\n={18}|\Z)", re.S)
 
 
@@ -215,11 +219,11 @@ def tsan_reports(text, repo):
         kind = m.group(1).strip().replace(" ", "-")
         frames = []
         for line in m.group(2).splitlines():
-            fm = runner.FRAME_RE.match(line)
+            fm = runner.FRAME_RE.match(line) or TSAN_FRAME_RE.match(line)
             if fm:
                 path = os.path.normpath(fm.group(3))
                 if path.startswith(inc) or path.startswith(cli):
-                    frames.append(runner.short_fn(fm.group(2)))
+                    frames.append(runner.repo_frame_name(fm.group(2), path, fm.group(4)))
         if not frames:
             continue
         inner = sorted(set(frames[:1] + [f for f in frames if f != frames[0]][:1]))
